@@ -555,5 +555,7 @@ def _density(spec, ctx, summary, classes):
         # each call draws N candidates and keeps each with probability q: variance <= target per call
         sigma = math.sqrt(max(target, 1.0) / R) + 1.0 / R
         summary.update(mean_rows=mean, target=target)
-        if abs(mean - target) > 6 * sigma + 1.0:
+        # every leaf operand rounds its own count up (ceil): up to one extra row per leaf
+        slack = 1.0 + len(rg.leaves(geo._strip_boundary(E)))
+        if abs(mean - target) > 6 * sigma + slack:
             ctx.violation("density-expectation", feat, f"mean row count {mean:.2f} over {R} calls, density*measure = {target:.2f}")
